@@ -71,27 +71,30 @@ PYSAM_DEFAULT_F = {"mapq": 0, "keep_dup": False, "keep_qc": False, "keep_supp": 
 
 
 def plan(tier, seed):
-    n = 7 if tier == "quick" else 70
+    n = 40 if tier == "quick" else 400
     return [{"name": "s%02d" % i, "shard": i, "datasets": n, "timeout": 3000 if tier == "quick" else 12000} for i in range(16)]
 
 
 def required(tier):
     req = {
-        "cli_runs": 350, "cli_runs_clean_dataset": 80, "depth_calls_observed": 800, "depth_calls_compared": 800,
-        "depth_cells_compared": 200000, "fn_direct_calls": 1000, "fn_single_position_calls": 250,
-        "runs_with_filtered_reads_in_targets": 100,
-        "toggle_pairs_with_effect_dup": 15, "toggle_pairs_with_effect_qc": 15, "toggle_pairs_with_effect_supp": 15,
-        "toggle_pairs_with_effect_mapq": 15,
-        "positions_decided": 20000, "positions_expected_emitted": 1500, "positions_expected_suppressed_polymorphic": 300,
-        "alleles_listed_expected": 3000, "alleles_excluded_with_depth": 500,
-        "decisive_ind_mad_boundary": 60, "decisive_ind_maf_boundary": 40, "decisive_maf_mean_vs_max": 40,
-        "decisive_min_ind_boundary": 50, "decisive_mad_boundary": 20, "decisive_maf_boundary": 5,
-        "refmasked_expected": 25, "ref_listed_expected": 1000, "alt_order_pairs_decisive": 150,
-        "records_checked": 1500, "info_ad_values_checked": 3000, "format_ad_values_checked": 6000, "admf_values_checked": 3000,
-        "ref_lowercase_in_fasta_records": 20,
+        "cli_runs": 3000, "cli_runs_clean_dataset": 1000, "cli_runs_depths_equal_generator_pileup": 500, "depth_calls_observed": 10000,
+        "depth_calls_compared": 10000, "depth_cells_compared": 15000000, "fn_direct_calls": 20000, "fn_single_position_calls": 10000,
+        "runs_with_filtered_reads_in_targets": 1200,
+        "toggle_pairs_with_effect_dup": 150, "toggle_pairs_with_effect_qc": 150, "toggle_pairs_with_effect_supp": 150,
+        "toggle_pairs_with_effect_mapq": 150,
+        "positions_decided": 150000, "positions_expected_emitted": 4000, "positions_expected_suppressed_polymorphic": 20000,
+        "alleles_listed_expected": 100000, "alleles_excluded_with_depth": 50000,
+        "decisive_ind_mad_boundary": 8000, "decisive_ind_maf_boundary": 10000, "decisive_maf_mean_vs_max": 400,
+        "decisive_min_ind_boundary": 40000, "decisive_mad_boundary": 5000, "decisive_maf_boundary": 800,
+        "refmasked_expected": 600, "ref_listed_expected": 3000, "alt_order_pairs_decisive": 1000,
+        "records_checked": 5000, "info_ad_values_checked": 10000, "format_ad_values_checked": 25000,
+        "format_ad_values_checked_against_generator_pileup": 8000, "admf_values_checked": 8000,
+        "ref_lowercase_in_fasta_records": 400,
     }
     for bits in range(8):
-        req["runs_keepflags_%d%d%d" % (bits & 1, (bits >> 1) & 1, (bits >> 2) & 1)] = 15
+        req["runs_keepflags_%d%d%d" % (bits & 1, (bits >> 1) & 1, (bits >> 2) & 1)] = 300
+    if tier != "quick":
+        req = {k: 5 * v for k, v in req.items()}
     return req
 
 
@@ -196,7 +199,7 @@ def build_dataset(rng, root, P):
         alns = []
         qn = 0
         for locus in loci:
-            if rng.random() < 0.12 and len(ds.samples) > 1:
+            if rng.random() < 0.06 and len(ds.samples) > 1:
                 continue  # this sample has no reads at this locus
             g = make_genotype(rng, locus, P["ploidy"])
             ln = locus["stop"] - locus["start"]
@@ -416,60 +419,66 @@ def pick_thresholds(rng, ds, doc):
         c, p = cand[int(rng.integers(len(cand)))]
         return doc[c][p]
 
+    def minor(values):
+        """index of a non-zero entry, preferring the non-maximal ones (thresholds near the major allele list nothing)."""
+        nz = [int(i) for i in np.nonzero(np.asarray(values) > 0)[0]]
+        small = [i for i in nz if values[i] < max(values)]
+        pool = small if small and rng.random() < 0.8 else nz
+        return pool[int(rng.integers(len(pool)))]
+
     r = rng.random()
-    if r < 0.25:
+    if r < 0.30:
         kinds["ind_maf"] = "default"
-    elif r < 0.30:
+    elif r < 0.38:
         T["ind_maf"], kinds["ind_maf"] = 0.0, "zero"
-    elif r < 0.55:
-        T["ind_maf"], kinds["ind_maf"] = float(rng.choice([0.0625, 0.125, 0.25, 0.5, 0.75, 1.0])), "dyadic"
-    elif r < 0.85 and cand:
+    elif r < 0.58:
+        T["ind_maf"], kinds["ind_maf"] = float(rng.choice([0.03125, 0.0625, 0.125, 0.25, 0.25, 0.5, 0.5, 0.75, 1.0])), "dyadic"
+    elif r < 0.88 and cand:
         d = a_position()
         s = int(rng.integers(S))
-        nz = np.nonzero(d[s] > 0)[0]
-        a = int(nz[int(rng.integers(len(nz)))])
+        a = minor(d[s])
         T["ind_maf"], kinds["ind_maf"] = int(d[s, a]) / int(d[s].sum()), "observed"
     else:
-        T["ind_maf"], kinds["ind_maf"] = float(rng.uniform(0, 0.6)), "random"
+        T["ind_maf"], kinds["ind_maf"] = float(rng.uniform(0, 0.4)), "random"
     r = rng.random()
     if r < 0.25:
         kinds["ind_mad"] = "default"
-    elif r < 0.50:
+    elif r < 0.55:
         T["ind_mad"], kinds["ind_mad"] = int(rng.integers(0, 3)), "small"
-    elif r < 0.85 and cand:
+    elif r < 0.90 and cand:
         d = a_position()
-        nz = d[d > 0]
-        T["ind_mad"], kinds["ind_mad"] = int(nz[int(rng.integers(len(nz)))]) + int(rng.random() < 0.25), "observed"
+        s = int(rng.integers(S))
+        a = minor(d[s])
+        T["ind_mad"], kinds["ind_mad"] = int(d[s, a]) + int(rng.random() < 0.2), "observed"
     else:
-        T["ind_mad"], kinds["ind_mad"] = int(rng.integers(1, 12)), "random"
+        T["ind_mad"], kinds["ind_mad"] = int(rng.integers(1, 8)), "random"
     r = rng.random()
     if r < 0.4:
         kinds["min_ind"] = "default"
     else:
-        T["min_ind"], kinds["min_ind"] = int(rng.integers(1, S + 1)) + int(rng.random() < 0.07), "explicit"
+        T["min_ind"], kinds["min_ind"] = int(rng.integers(1, S + 1)) + int(rng.random() < 0.05), "explicit"
     r = rng.random()
-    if r < 0.4:
+    if r < 0.45:
         kinds["maf"] = "default"
-    elif r < 0.70 and cand:
-        d = a_position()
-        nz = np.nonzero(d.sum(axis=0) > 0)[0]
-        a = int(nz[int(rng.integers(len(nz)))])
-        m = sum((Fraction(int(d[s, a]), int(d[s].sum())) for s in range(S)), Fraction(0)) / S
-        T["maf"], kinds["maf"] = float(m), "observed"
-    elif r < 0.9:
-        T["maf"], kinds["maf"] = float(rng.choice([0.03125, 0.05, 0.125, 0.25, 0.5])), "fixed"
-    else:
-        T["maf"], kinds["maf"] = float(rng.uniform(0, 0.5)), "random"
-    r = rng.random()
-    if r < 0.4:
-        kinds["mad"] = "default"
     elif r < 0.75 and cand:
         d = a_position()
-        nz = d.sum(axis=0)
-        nz = nz[nz > 0]
-        T["mad"], kinds["mad"] = int(nz[int(rng.integers(len(nz)))]) + int(rng.random() < 0.25), "observed"
+        a = minor(d.sum(axis=0))
+        m = sum((Fraction(int(d[s, a]), int(d[s].sum())) for s in range(S)), Fraction(0)) / S
+        T["maf"], kinds["maf"] = float(m), "observed"
+    elif r < 0.92:
+        T["maf"], kinds["maf"] = float(rng.choice([0.015625, 0.03125, 0.05, 0.125, 0.25, 0.5])), "fixed"
     else:
-        T["mad"], kinds["mad"] = int(rng.integers(1, 6 * S)), "random"
+        T["maf"], kinds["maf"] = float(rng.uniform(0, 0.3)), "random"
+    r = rng.random()
+    if r < 0.45:
+        kinds["mad"] = "default"
+    elif r < 0.80 and cand:
+        d = a_position()
+        tot = d.sum(axis=0)
+        a = minor(tot)
+        T["mad"], kinds["mad"] = int(tot[a]) + int(rng.random() < 0.2), "observed"
+    else:
+        T["mad"], kinds["mad"] = int(rng.integers(1, 3 * S + 2)), "random"
     return T, kinds
 
 
